@@ -357,6 +357,7 @@ fn execute(pool: &Pool, base_fd: i32, programs: &[Vec<OpK>], prefix: &[u8]) -> E
     let mut dup_count = 0usize;
     let mut pending_dup_log: Option<usize> = None;
     let mut closed_while_alive_reported = false;
+    let mut anomalies: Vec<String> = Vec::new();
 
     // hand out the handles: the creator's own handle moves into thread 0, clones to the others
     {
@@ -485,7 +486,13 @@ fn execute(pool: &Pool, base_fd: i32, programs: &[Vec<OpK>], prefix: &[u8]) -> E
             break;
         }
         for nt in notes {
-            ex.violations.push(format!("thread {}: {}", t, nt));
+            if nt.starts_with("dup-result-drop-hooks") {
+                // not a failure of the property: the private duplicate's Drop announced other points than the
+                // modelled load / InnerDrop / load / compare_exchange; shows up as a disagreement with the model
+                anomalies.push(format!("{}:{}", t, nt.replace(' ', "")));
+            } else {
+                ex.violations.push(format!("thread {}: {}", t, nt));
+            }
         }
         if let Some(p) = panicked {
             ex.violations.push(format!("thread {} panicked: {}", t, p));
@@ -604,6 +611,9 @@ fn execute(pool: &Pool, base_fd: i32, programs: &[Vec<OpK>], prefix: &[u8]) -> E
         if log.is_empty() { "-".to_string() } else { log.join(",") },
         if final_open { "open" } else { "closed" }
     );
+    if !anomalies.is_empty() {
+        ex.obs.push_str(&format!(" anomalies={}", anomalies.join(";")));
+    }
     ex
 }
 
@@ -669,7 +679,17 @@ struct Stats {
     executions: u64,
     max_len: usize,
     fatal: bool,
+    /// executions with at least one direct violation
+    violating: u64,
+    /// the enumeration was cut short (too many violations, or a program set needs far more schedules than
+    /// the code's atomic decomposition allows)
+    incomplete: bool,
+    /// largest observed (schedules of a set) / (static estimate of the set), in percent
+    max_ratio_pct: u64,
 }
+
+/// after this many violating executions the evidence is sufficient and the enumeration stops
+const MAX_VIOLATING: u64 = 5000;
 
 fn record(out: &mut Out, st: &mut Stats, programs: &[Vec<OpK>], ex: &Exec) {
     let req = request(programs, &ex.schedule);
@@ -680,6 +700,9 @@ fn record(out: &mut Out, st: &mut Stats, programs: &[Vec<OpK>], ex: &Exec) {
     }
     for v in &ex.violations {
         out.violation(&req, v);
+    }
+    if !ex.violations.is_empty() {
+        st.violating += 1;
     }
     st.executions += 1;
     st.max_len = st.max_len.max(ex.schedule.len());
@@ -706,14 +729,30 @@ fn record(out: &mut Out, st: &mut Stats, programs: &[Vec<OpK>], ex: &Exec) {
 }
 
 /// every complete schedule of this program set, depth first
-fn explore(out: &mut Out, st: &mut Stats, pool: &Pool, base_fd: i32, programs: &[Vec<OpK>]) -> u64 {
+fn explore(out: &mut Out, st: &mut Stats, pool: &Pool, base_fd: i32, programs: &[Vec<OpK>], estimate: f64) -> u64 {
     let mut prefix: Vec<u8> = Vec::new();
     let mut count = 0u64;
+    // on the unchanged code no set needs more schedules than its static estimate (the evidence reports the
+    // largest ratio as max_schedules_per_estimate_percent); a set that needs 4x as many has a different
+    // atomic decomposition than the one the space was dimensioned for
+    let limit = (estimate * 4.0) as u64 + 500;
     loop {
         let ex = execute(pool, base_fd, programs, &prefix);
         record(out, st, programs, &ex);
         count += 1;
         if st.fatal {
+            return count;
+        }
+        if st.violating >= MAX_VIOLATING {
+            st.incomplete = true;
+            return count;
+        }
+        if count > limit {
+            out.violation(
+                &request(programs, &[]),
+                &format!("more than {} schedules for this program set (static estimate {}): the code's sequence of atomic steps is not the modelled one; enumeration of this set abandoned", limit, estimate),
+            );
+            st.incomplete = true;
             return count;
         }
         let mut next: Option<Vec<u8>> = None;
@@ -733,7 +772,10 @@ fn explore(out: &mut Out, st: &mut Stats, pool: &Pool, base_fd: i32, programs: &
         }
         match next {
             Some(p) => prefix = p,
-            None => return count,
+            None => {
+                st.max_ratio_pct = st.max_ratio_pct.max((count as f64 * 100.0 / estimate) as u64);
+                return count;
+            }
         }
     }
 }
@@ -793,9 +835,10 @@ fn weight(p: &[OpK]) -> u64 {
     w + h.max(0) as u64
 }
 
-/// multinomial (w0 + w1 + .. + 4)! / (w0! w1! ..  4!)-free bound: number of interleavings of sequences of
-/// these lengths, where the 4 steps of the last drop (InnerDrop, load, compare_exchange, close) are added
-/// to the longest one
+/// static estimate of the number of complete schedules of a program set: the multinomial coefficient
+/// (number of interleavings) of sequences of these lengths, where the 4 steps of the last drop (InnerDrop, load,
+/// compare_exchange, close) are added to the longest one. Only used to decide which program sets belong to
+/// the enumerated space; on the unchanged code the real number never exceeded it.
 fn interleavings_bound(ws: &[u64]) -> f64 {
     let mut ws: Vec<u64> = ws.to_vec();
     ws.sort();
@@ -818,7 +861,7 @@ pub fn run(cfg: &Cfg) {
     let base_fd = unsafe { libc::open(devnull.as_ptr(), libc::O_RDONLY | libc::O_CLOEXEC) };
     assert!(base_fd >= 0);
     let pool = Pool::new(3);
-    let mut st = Stats { executions: 0, max_len: 0, fatal: false };
+    let mut st = Stats { executions: 0, max_len: 0, fatal: false, violating: 0, incomplete: false, max_ratio_pct: 0 };
 
     if let Some(line) = &cfg.replay {
         let toks: Vec<&str> = line.split_whitespace().collect();
@@ -842,8 +885,9 @@ pub fn run(cfg: &Cfg) {
 
     // ---- 2 threads: all unordered pairs of valid programs of <= len2 operations whose static interleaving
     //      bound is <= cap2; 3 threads: all unordered triples of programs of <= len3 operations, bound <= cap3.
-    //      Measured: quick = 1116 pairs + 34 triples = 412 545 executions (~11 s); thorough = 4 354 pairs +
-    //      338 triples, ~2.6 million executions (~1.5 min). C12_CAP2 / C12_CAP3 override the caps (experiments).
+    //      Measured on the unchanged tree: quick = 1 116 pairs + 34 triples = 412 545 executions (~10 s);
+    //      thorough = 3 707 pairs + 338 triples = 1 846 571 executions (~50 s, max schedule length 24).
+    //      C12_CAP2 / C12_CAP3 override the caps (experiments only).
     let envf = |k: &str, d: f64| std::env::var(k).ok().and_then(|v| v.parse().ok()).unwrap_or(d);
     let (len2, cap2) = if cfg.thorough { (4usize, envf("C12_CAP2", 8000f64)) } else { (3usize, envf("C12_CAP2", 8000f64)) };
     let (len3, cap3) = if cfg.thorough { (2usize, envf("C12_CAP3", 40000f64)) } else { (1usize, envf("C12_CAP3", 8000f64)) };
@@ -857,18 +901,18 @@ pub fn run(cfg: &Cfg) {
                 continue;
             }
             let programs = vec![progs2[i].clone(), progs2[j].clone()];
-            let c = explore(&mut out, &mut st, &pool, base_fd, &programs);
+            let c = explore(&mut out, &mut st, &pool, base_fd, &programs, b);
             sets += 1;
             out.hit("program_sets_2_threads");
             out.hit_n("schedules_2_threads", c);
-            if st.fatal {
+            if st.fatal || st.violating >= MAX_VIOLATING {
                 complete = false;
                 break 'outer2;
             }
         }
     }
     // ---- 3 threads
-    if !st.fatal {
+    if !st.fatal && st.violating < MAX_VIOLATING {
         let progs3 = valid_programs(len3);
         'outer3: for i in 0..progs3.len() {
             for j in i..progs3.len() {
@@ -878,11 +922,11 @@ pub fn run(cfg: &Cfg) {
                         continue;
                     }
                     let programs = vec![progs3[i].clone(), progs3[j].clone(), progs3[k].clone()];
-                    let c = explore(&mut out, &mut st, &pool, base_fd, &programs);
+                    let c = explore(&mut out, &mut st, &pool, base_fd, &programs, b);
                     sets += 1;
                     out.hit("program_sets_3_threads");
                     out.hit_n("schedules_3_threads", c);
-                    if st.fatal {
+                    if st.fatal || st.violating >= MAX_VIOLATING {
                         complete = false;
                         break 'outer3;
                     }
@@ -890,10 +934,14 @@ pub fn run(cfg: &Cfg) {
             }
         }
     }
+    if st.incomplete {
+        complete = false;
+    }
     out.hit_n("max_schedule_length", st.max_len as u64);
+    out.hit_n("max_schedules_per_estimate_percent", st.max_ratio_pct);
     out.hit_n("program_sets", sets);
     let rule = format!(
-        "real threads under a deterministic scheduler (verif_hooks callback blocks at every FdLoad / FdCompareExchange / FdInnerDrop / FdDup / FdClose point and at every operation start; one thread runs at a time); EVERY complete interleaving (stateless DFS, programs re-run from scratch per schedule) of: all unordered pairs of borrow-valid programs of <= {} operations over take/get/dup/clone/drop (each thread starts with one clone of the handle and drops what it still owns at its end) whose static interleaving bound is <= {}, and all unordered triples of such programs of <= {} operation(s) with bound <= {}; one case per complete schedule (request = programs + schedule, so distinct by construction); non-trivial = some thread was preempted inside an operation",
+        "real threads under a deterministic scheduler (verif_hooks callback blocks at every FdLoad / FdCompareExchange / FdInnerDrop / FdDup / FdClose point and at every operation start; one thread runs at a time); EVERY complete interleaving (stateless DFS, programs re-run from scratch per schedule) of: all unordered pairs of borrow-valid programs of <= {} operations over take/get/dup/clone/drop (each thread starts with one clone of the handle and drops what it still owns at its end) whose static interleaving estimate is <= {}, and all unordered triples of such programs of <= {} operation(s) with estimate <= {}; one case per complete schedule (request = programs + schedule, so distinct by construction); non-trivial = some thread was preempted inside an operation",
         len2, cap2, len3, cap3
     );
     out.finish(&rule, complete);
